@@ -184,10 +184,10 @@ def _c15(E, tier, seed, res):
         summaries = [l for l in out.splitlines() if l.startswith("{")]
         done += len(summaries)
         if rc != 0:
-            if re.search(r"Undefined Behavior|Data race detected|data race", text):
-                m = re.search(r"(error: Undefined Behavior.*?)(?:\n\n|\Z)", text, re.S)
+            if re.search(r"Undefined Behavior|Data race detected|data race|error: deadlock", text):
+                m = re.search(r"(error: (?:Undefined Behavior|deadlock).*?)(?:\n\n|\Z)", text, re.S)
                 res["violations"].append(_viol("concurrent/miri", "cargo +nightly miri run (seeds %d..%d) of /verif/c15" % (a, b),
-                                               "no undefined behaviour, no data race", (m.group(1) if m else text)[-1500:], leg="miri", seeds=[a, b]))
+                                               "no undefined behaviour, no data race, no deadlock", (m.group(1) if m else text)[-1500:], leg="miri", seeds=[a, b]))
             elif "MISMATCH" in text:
                 res["violations"].append(_viol("concurrent/result-differs-from-sequential", "under miri, seeds %d..%d" % (a, b),
                                                "every concurrent result equals the sequential one",
